@@ -76,6 +76,7 @@ func c10Run(rc *sim.RunCtx) {
 		isCut[t.Draw(len(stmts)-1)] = true
 	}
 	var frags []string
+	var cutVars [][]string
 	var cur strings.Builder
 	cur.WriteString(c10Prelude)
 	kinds := []string{}
@@ -86,6 +87,7 @@ func c10Run(rc *sim.RunCtx) {
 			names := vars[i]
 			cur.WriteString("[" + strings.Join(names, ", ") + "]\n")
 			frags = append(frags, cur.String())
+			cutVars = append(cutVars, names)
 			cur.Reset()
 			kinds = append(kinds, fmt.Sprint(i))
 		}
@@ -180,7 +182,23 @@ func c10Run(rc *sim.RunCtx) {
 		}
 		if strings.HasPrefix(got.val, "error=") {
 			rc.Probe("fragment-failed:" + strings.SplitN(got.val, "(", 2)[0])
-			break // nothing is compared after the first failing fragment
+			// the state the failing fragment left behind: read every name declared so far in the session and in a
+			// fresh Eval that evaluated the concatenation (which failed at the same point)
+			// (only names of earlier, successful fragments: a name the failing fragment declared but never reached has no defined value)
+			if i > 0 && len(cutVars[i-1]) > 0 {
+				names := cutVars[i-1]
+				probe := "[" + strings.Join(names, ", ") + "]\n"
+				pg := evalOne(sess, sw, probe)
+				pw := evalOne(ref, rw, probe)
+				if pg.val != pw.val {
+					rc.Decoded = map[string]any{"fragments": frags[:i+1], "probe": probe, "session": pg.val, "batch": pw.val}
+					rc.Fail("session-differs-from-batch", "session-differs:state-after-failure", "after fragment %d failed (%s) the session and a fresh Eval that evaluated fragments 0..%d as one script hold different variable state\n probe:   %s session: %s\n batch:   %s\nfragments:\n%s",
+						i, got.val, i, probe, pg.val, pw.val, strings.Join(frags[:i+1], "---- cut ----\n"))
+					return
+				}
+				rc.Probe("state-after-failure-compared")
+			}
+			break // nothing else is compared after the first failing fragment
 		}
 	}
 	rc.Steps = sc.Steps
